@@ -188,13 +188,13 @@ type scriptOutcome struct {
 // scriptWorld is a prebuilt data set shared by a case's scripts.
 type scriptWorld struct {
 	bigRegion bool
-	w    *world.World
-	d    *world.Descriptor
-	inv  []*world.FileInv
-	log  *stores.Log
-	plan *scriptPlan
-	engs map[string]*bs.BloomSearchEngine
-	conc int
+	w         *world.World
+	d         *world.Descriptor
+	inv       []*world.FileInv
+	log       *stores.Log
+	plan      *scriptPlan
+	engs      map[string]*bs.BloomSearchEngine
+	conc      int
 }
 
 // scriptPlan injects faults relative to a query's start and random delays.
